@@ -54,6 +54,10 @@ func main() {
 		raceReplay(args)
 	case "list-replay":
 		listReplay(args)
+	case "list-mirror":
+		listMirror(args)
+	case "list-survey":
+		listSurvey(args)
 	case "list-e2e":
 		listE2E(args)
 	case "sender-replay":
